@@ -25,6 +25,8 @@ type Net struct {
 	RefuseDials int
 	Dials       int
 	Conns       []*VConn
+	// ioSync mirrors the runtime poller's race annotations: every socket write is released into it, every read acquires it.
+	ioSync sched.VC
 }
 
 // Current is the network in use.
@@ -91,6 +93,9 @@ func (c *VConn) Read(p []byte) (int, error) {
 		sched.PanicKilled()
 	}
 	g.Yield("read "+c.name, func() bool { return len(c.in) > 0 || c.closed || c.peer.closed })
+	if Current != nil {
+		g.AcquireVC(Current.ioSync)
+	}
 	if len(c.in) > 0 {
 		n := len(p)
 		if n > len(c.in) {
@@ -124,6 +129,9 @@ func (c *VConn) Write(p []byte) (int, error) {
 		sched.PanicKilled()
 	}
 	g.Yield("write "+c.name, nil)
+	if Current != nil {
+		g.ReleaseInto(&Current.ioSync)
+	}
 	if c.closed {
 		return 0, net.ErrClosed
 	}
@@ -141,6 +149,9 @@ func (c *VConn) Close() error {
 		return nil
 	}
 	g.Yield("close "+c.name, nil)
+	if Current != nil {
+		g.ReleaseInto(&Current.ioSync)
+	}
 	if c.closed {
 		return net.ErrClosed
 	}
